@@ -81,6 +81,14 @@ int __real_clock_gettime(clockid_t, struct timespec *);
 unsigned int __real_sleep(unsigned int);
 int __real_pthread_setcancelstate(int, int *);
 int __real_pthread_cancel(pthread_t);
+int __real_pthread_mutex_lock(pthread_mutex_t *);
+int __real_pthread_mutex_unlock(pthread_mutex_t *);
+int __real_pthread_cond_wait(pthread_cond_t *, pthread_mutex_t *);
+int __real_pthread_cond_timedwait(pthread_cond_t *, pthread_mutex_t *, const struct timespec *);
+int __real_pthread_cond_signal(pthread_cond_t *);
+int __real_pthread_cond_broadcast(pthread_cond_t *);
+int __real_usleep(useconds_t);
+int __real_nanosleep(const struct timespec *, struct timespec *);
 
 /* ------------------------------------------------------------------ state */
 enum tstate { T_UNUSED = 0, T_RUNNABLE, T_BLOCKED, T_DONE };
@@ -719,6 +727,123 @@ int __wrap_pthread_rwlock_unlock(pthread_rwlock_t *l)
 	sim_wake(SIM_W_LOCK, l);
 	sim_sched_point();
 	return r;
+}
+
+/* Mutexes and condition variables: rtrlib uses none today, but a change to it may; an unwrapped blocking call would stop
+ * the process with the baton held. Same scheme as the rwlocks: try-lock in a loop, block in the simulator. */
+int __wrap_pthread_mutex_lock(pthread_mutex_t *m)
+{
+	if (!tls_task)
+		return __real_pthread_mutex_lock(m);
+	sim_sched_point();
+	for (;;) {
+		int r = pthread_mutex_trylock(m);
+
+		if (r == 0) {
+			sim_log(EV_LOCK, 2, 0);
+			return 0;
+		}
+		if (r != EBUSY && r != EAGAIN)
+			return r;
+		G.st.lock_blocks++;
+		(void)sim_block(SIM_W_LOCK, m, SIM_NO_DEADLINE, 0);
+	}
+}
+
+int __wrap_pthread_mutex_unlock(pthread_mutex_t *m)
+{
+	int r = __real_pthread_mutex_unlock(m);
+
+	if (!tls_task)
+		return r;
+	sim_log(EV_UNLOCK, 2, 0);
+	sim_wake(SIM_W_LOCK, m);
+	sim_sched_point();
+	return r;
+}
+
+static int cond_wait_until(pthread_cond_t *c, pthread_mutex_t *m, uint64_t deadline)
+{
+	/* (no task switch between the unlock and the block: a signal cannot be lost) */
+	__real_pthread_mutex_unlock(m);
+	sim_wake(SIM_W_LOCK, m);
+	enum sim_wake_reason r = sim_block(SIM_W_USER, c, deadline, 1);
+
+	(void)__wrap_pthread_mutex_lock(m);
+	if (r == SIM_CANCELLED)
+		do_cancel_exit(); /* POSIX: the mutex is re-acquired before the cleanup handlers run */
+	return r == SIM_TIMEOUT ? ETIMEDOUT : 0;
+}
+
+int __wrap_pthread_cond_wait(pthread_cond_t *c, pthread_mutex_t *m)
+{
+	if (!tls_task)
+		return __real_pthread_cond_wait(c, m);
+	return cond_wait_until(c, m, SIM_NO_DEADLINE);
+}
+
+int __wrap_pthread_cond_timedwait(pthread_cond_t *c, pthread_mutex_t *m, const struct timespec *abs)
+{
+	if (!tls_task)
+		return __real_pthread_cond_timedwait(c, m, abs);
+	/* the absolute time is taken on the simulated monotonic clock if it lies within a day of it, otherwise as an offset
+	 * from the real CLOCK_REALTIME (the default clock of a condition variable) */
+	uint64_t t = (uint64_t)abs->tv_sec * SIM_NS + (uint64_t)abs->tv_nsec, dl;
+
+	if (t + 86400 * SIM_NS >= G.now && t <= G.now + 86400 * SIM_NS)
+		dl = t;
+	else {
+		struct timespec rt;
+
+		__real_clock_gettime(CLOCK_REALTIME, &rt);
+		uint64_t rn = (uint64_t)rt.tv_sec * SIM_NS + (uint64_t)rt.tv_nsec;
+
+		dl = G.now + (t > rn ? t - rn : 0);
+	}
+	return cond_wait_until(c, m, dl);
+}
+
+int __wrap_pthread_cond_signal(pthread_cond_t *c)
+{
+	if (!tls_task)
+		return __real_pthread_cond_signal(c);
+	sim_wake(SIM_W_USER, c); /* wakes every waiter: spurious wake-ups are allowed */
+	sim_sched_point();
+	return 0;
+}
+
+int __wrap_pthread_cond_broadcast(pthread_cond_t *c)
+{
+	if (!tls_task)
+		return __real_pthread_cond_broadcast(c);
+	sim_wake(SIM_W_USER, c);
+	sim_sched_point();
+	return 0;
+}
+
+static void sleep_ns_cancellable(uint64_t ns)
+{
+	sim_log(EV_SLEEP, ns / SIM_NS, ns % SIM_NS);
+	if (sim_block(SIM_W_TIME, NULL, G.now + ns, 1) == SIM_CANCELLED)
+		do_cancel_exit();
+}
+
+int __wrap_usleep(useconds_t us)
+{
+	if (!tls_task)
+		return __real_usleep(us);
+	sleep_ns_cancellable((uint64_t)us * 1000);
+	return 0;
+}
+
+int __wrap_nanosleep(const struct timespec *req, struct timespec *rem)
+{
+	if (!tls_task)
+		return __real_nanosleep(req, rem);
+	sleep_ns_cancellable((uint64_t)req->tv_sec * SIM_NS + (uint64_t)req->tv_nsec);
+	if (rem)
+		rem->tv_sec = 0, rem->tv_nsec = 0;
+	return 0;
 }
 
 int __wrap_clock_gettime(clockid_t clk, struct timespec *ts)
